@@ -158,3 +158,17 @@ Theorem C05_endblock_debits : forall cfg s dt a,
         \/ (In (height s, c) (expq s) /\ c_rep rc = true /\ c_freq rc = c_timeout rc)).
 Proof. exact StepSpecs_auth.C05_endblock_debits. Qed.
 Print Assumptions C05_endblock_debits.
+
+(* every step of a reachable state: whose balance may fall, and why *)
+Theorem C05_step_debits : forall cfg s o a,
+  wf_cfg cfg -> Reach cfg s -> wf_op s o ->
+  bal (fst (step cfg s o)) (User a) < bal s (User a) ->
+  (signer o = Some a /\ rightful cfg s o /\ 0 < max_debit o /\ snd (step cfg s o) = ROk
+   /\ bal s (User a) - max_debit o <= bal (fst (step cfg s o)) (User a))
+  \/ ((exists dt, o = OEndBlock dt)
+      /\ exists c rc, get c (ctxs s) = Some rc /\ c_cons rc = a /\ c_state rc = Running
+           /\ c_super rc = false
+           /\ (In (height s, c) (newq s)
+               \/ (In (height s, c) (expq s) /\ c_rep rc = true /\ c_freq rc = c_timeout rc))).
+Proof. exact StepSpecs_auth.C05_step_debits. Qed.
+Print Assumptions C05_step_debits.
